@@ -60,6 +60,21 @@ def make_jobs(ctx: Ctx, data, rng, per_modal, per_plain):
                 dist['random-' + ('id-' if f['ident'] else '') + ('fo-' if f['quant'] else '') + ('modal' if f['modal'] else 'prop')] += 1
             jobs.append(tabrun.job_for(len(jobs), lg, prem, conc, opts=tabrun.OPTS[rng.randrange(4)], mode='step',
                                        max_steps=ctx.scale(150, 400), probe=True))
+    # every modal inference schema of the generator with sentence letters (plain and with the modal operators written through
+    # their duals), dealt over the modal logics: a third of them per logic in the quick tier (rotating with logic and seed),
+    # all of them in the thorough tier
+    for li, lg in enumerate(names):
+        if not data[lg]['modal']:
+            continue
+        sch = tabrun.all_schemata(rng, modal=True)
+        for si, (prem, conc) in enumerate(sch):
+            if not ctx.thorough and (si + li + ctx.seed) % 3:
+                continue
+            if (si + li) % 2:
+                prem, conc = [tabrun.dualise(x) for x in prem], tabrun.dualise(conc)
+            dist['schemata-atomic-modal'] += 1
+            jobs.append(tabrun.job_for(len(jobs), lg, prem, conc, opts=tabrun.OPTS[(si + li) % 4], mode='step',
+                                       max_steps=ctx.scale(150, 400), probe=True))
     # the identity rule (classical family only): schemata whose premises interact through identities, so that
     # IdentityIndiscernability really fires (Leibniz-style arguments, also inside modal contexts)
     for lg in names:
